@@ -1014,6 +1014,32 @@ def md_block_oracle(w, ref_stdout):
 KIND_INDEX = {"balance": 0, "balance-group": 1, "register": 2}
 
 
+DEFAULT_WARNING = ["   ; WARNING:", "   ; WARNING: The sum of equity transaction is zero without equity account.",
+                   "   ; WARNING: Therefore there is no equity posting row, and this is probably not right.",
+                   "   ; WARNING: Is the account selector correct for this Equity export?", "   ; WARNING:"]
+
+
+def canon_equity_warning(text):
+    """The WORDING of the comment block which the equity export prints when a commodity's selected balances cancel is not
+    something a property speaks about (DESIGN section 13, benign/B3-1): in every transaction of the implementation's export the
+    comment lines after the metadata items (each item ends with the empty comment '   ; ') and before the first posting are
+    replaced by today's wording; where and whether there is such a block is still compared with the model byte for byte."""
+    out, lines, i = [], text.split("\n"), 0
+    while i < len(lines):
+        out.append(lines[i])
+        if lines[i][:1].isdigit():                      # a transaction header
+            j = i + 1
+            while j < len(lines) and (lines[j] == "   ;" or lines[j].startswith("   ; ")):
+                j += 1
+            comments = lines[i + 1:j]
+            k = max([n + 1 for n, l in enumerate(comments) if l == "   ; "] or [0])
+            out += comments[:k] + (DEFAULT_WARNING if comments[k:] else [])
+            i = j
+            continue
+        i += 1
+    return "\n".join(out)
+
+
 def equity_oracle(run, worlds, st):
     """the equity export written in a run (after whatever reports of that run) is loaded again through the harness (load: string) and must
     carry exactly the rows of the harness's own `balance kind=equity prices=false` of the same journal, filter and selector (a session of
@@ -1124,7 +1150,8 @@ def python_oracles(run, worlds, st, root):
 def case_term(w):
     im = w["impl"]
     v = "t07g" if (w.get("t07") or {}).get("git") is not None else "t07" if w.get("t07") else "t06"
-    fl = g_list(["(%s, %s)" % (g_str(n), g_str(c)) for n, c in im["files"].items()]) if im["files"] else "(@nil (list N * list N))"
+    fl = (g_list(["(%s, %s)" % (g_str(n), g_str(canon_equity_warning(c) if n.endswith(".equity.txn") else c)) for n, c in im["files"].items()])
+          if im["files"] else "(@nil (list N * list N))")
     if is_ft(w):     # the filter as the text of --api-filter-def: T08_filter.run_console_ft / run_files_ft
         if w["mode"] == "console":
             return "t08_console_ft_case %s %s %s" % (ft_args(w), g_bool(im["rc"] == 0), g_str(im["stdout"]))
